@@ -414,11 +414,23 @@ where
     A: Subscribe<C>,
     C: Collect,
 {
-    pub(super) fn new(subscriber: A, inner: B, inner_has_subscriber_filter: bool) -> Self {
+    /// `inner_is_collector` says whether `inner` is the collector `C` itself (as in
+    /// [`Subscribe::with_collector`]) rather than another subscriber (as in
+    /// [`Subscribe::and_then`]); only then can `inner` be the `Registry`.
+    pub(super) fn new(
+        subscriber: A,
+        inner: B,
+        inner_has_subscriber_filter: bool,
+        inner_is_collector: bool,
+    ) -> Self {
         #[cfg(all(feature = "registry", feature = "std"))]
-        let inner_is_registry = TypeId::of::<C>() == TypeId::of::<crate::registry::Registry>();
+        let inner_is_registry =
+            inner_is_collector && TypeId::of::<C>() == TypeId::of::<crate::registry::Registry>();
         #[cfg(not(all(feature = "registry", feature = "std")))]
-        let inner_is_registry = false;
+        let inner_is_registry = {
+            let _ = inner_is_collector;
+            false
+        };
 
         let inner_has_subscriber_filter = inner_has_subscriber_filter || inner_is_registry;
         let has_subscriber_filter = filter::subscriber_has_psf(&subscriber);
